@@ -16,7 +16,7 @@ import tempfile
 import cdd.compound.doctrans
 
 from vcdd import REPO, core
-from vcdd.gen import progen
+from vcdd.gen import corpus, progen
 from vcdd.monitors import fsnap
 from vcdd.monitors.steps import StepMonitor
 from vcdd.oracle import astcmp
@@ -42,7 +42,7 @@ CLI_EVERY = 12
 def streams(ctx):
     return [("modules", ctx.scale(160, 3000)), ("hand", len(HAND)), ("header_comments", ctx.scale(24, 300)),
             ("big_modules", ctx.scale(8, 100)), ("prose_types", ctx.scale(24, 300)),
-            ("quote_prose", ctx.scale(32, 400))]
+            ("quote_prose", ctx.scale(32, 400)), ("repo_files", len(corpus.py_files(max_bytes=ctx.scale(4000, 12000))))]
 
 
 HAND = [
@@ -177,6 +177,10 @@ def run_case(ctx, P, stream, idx):
         src = progen.gen_prose_typed_module(r)  # documented types that are prose, not expressions
     elif stream == "big_modules":
         src = progen.gen_module(r, n_items=r.randint(8, 14), prelude=True)  # many definitions in one file
+    elif stream == "repo_files":
+        # the repository's own sources (package and tests): modules nobody generated
+        with open(corpus.py_files(max_bytes=ctx.scale(4000, 12000))[idx]) as f:
+            src = f.read()
     else:
         src = HAND[idx] if stream == "hand" else progen.gen_module(r, n_items=r.randint(1, 3), prelude=r.random() < 0.3)
     tree = ast.parse(src)
@@ -188,7 +192,7 @@ def run_case(ctx, P, stream, idx):
             f.write(src)
         configs = [(s, ta) for s in STYLES for ta in (True, False)]
         if stream != "hand":
-            configs = r.sample(configs, ctx.scale(3, 6))
+            configs = r.sample(configs, ctx.scale(2 if stream == "repo_files" else 3, 6))
         for style, ta in configs:
             cfg = {"style": style, "ta": ta, "wrap": r.random() < 0.7}
             use_cli = stream != "hand" and (idx + len(style)) % CLI_EVERY == 0
